@@ -72,6 +72,18 @@ M = {
  "commit_notify_before_publish": ("src/scheduler.rs",
    "                self.scheduler_ctx.publish_finality(next_finality_idx);\n                if finality_idx == previous_finality_idx {\n                    // Start commit as soon as the first transaction in this batch is visible.\n                    self.commit_wait.notify();\n                }",
    "                if finality_idx == previous_finality_idx {\n                    self.commit_wait.notify();\n                }\n                self.scheduler_ctx.publish_finality(next_finality_idx);", "C17 C05"),
+ "hist_invalidate_any_incarnation": ("src/beneficiary/history.rs",
+   "        if state.incarnation != incarnation {\n            return false;\n        }\n        if matches!(&state.value, EntryValue::Exact(_)) {",
+   "        if state.incarnation < incarnation {\n            return false;\n        }\n        if matches!(&state.value, EntryValue::Exact(_)) {", "C07"),
+ "hist_record_same_incarnation": ("src/beneficiary/history.rs",
+   "        if incarnation <= state.incarnation {\n            return false;\n        }",
+   "        if incarnation < state.incarnation {\n            return false;\n        }", "C07"),
+ "hist_unchanged_not_an_origin": ("src/beneficiary/history.rs",
+   "            origins.push(TxVersion::new(writer, incarnation));\n            match effect {\n                BeneficiaryEffect::Unchanged => {}",
+   "            if effect != BeneficiaryEffect::Unchanged { origins.push(TxVersion::new(writer, incarnation)); }\n            match effect {\n                BeneficiaryEffect::Unchanged => {}", "C07"),
+ "hist_deleted_snapshot_as_unchanged": ("src/beneficiary/history.rs",
+   "            Some(FinalizedAccount::Deleted) => Self::Snapshot(None),",
+   "            Some(FinalizedAccount::Deleted) => Self::Unchanged,", "C07"),
  "f1_unfix_marker": ("src/parallel_state.rs", "XXX_NOT_PRESENT", "", ""),
 }
 
@@ -89,8 +101,11 @@ def run(name, runs, checks):
         b = sh("cd /verif/sim && cargo build --profile sim 2>&1 | grep -E '^error' -A 8")
         if b.stdout.strip():
             print(f"[{name}] does not compile:\n{b.stdout}"); return
-        t = sh("cd /repo && cargo test --workspace --no-fail-fast --offline 2>&1 | grep -E '^test result' | head -1")
-        print(f"[{name}] (should break {props}) baseline: {t.stdout.strip()}")
+        if os.environ.get("MUT_SKIP_BASELINE"):
+            print(f"[{name}] (should break {props}) baseline: skipped")
+        else:
+            t = sh("cd /repo && cargo test --workspace --no-fail-fast --offline 2>&1 | grep -E '^test result' | head -1")
+            print(f"[{name}] (should break {props}) baseline: {t.stdout.strip()}")
         for c in checks:
             r = sh(f"cd /verif && VERIF_RUNS={runs} ./sim/target/sim/sim check {c} quick 2>&1 | grep -E 'VIOLATION|KNOWN|HARNESS|class=|^check' | cut -c1-260")
             print(f"  {c}: " + r.stdout.strip().replace("\n", "\n      "))
